@@ -146,7 +146,7 @@ def _timestamp(ctx):
     b = enc.get("FractionalSeconds")
     ok = (a is not None and a[0] == "aggr" and a[2] == "Integer" and is_call(a[3][0][1], "core::convert::Into::into")
           and a[3][0][1][2] == (("field", ("variant", ("param", 0), "WholeSeconds"), "0"),)
-          and b == ("aggr", "ciborium::Value", "Float", (("0", ("field", ("variant", ("param", 0), "FractionalSeconds"), "0")),)))
+          and b == ("aggr", "ciborium::value::Value", "Float", (("0", ("field", ("variant", ("param", 0), "FractionalSeconds"), "0")),)))
     ctx.ob("R-enc", "timestamp-encode", ok and len(enc) == 2, "Timestamp encodes WholeSeconds as an integer of the same value and FractionalSeconds as a float",
            where=e.span, detail={k: show(v)[:80] for k, v in enc.items()})
 
@@ -279,7 +279,7 @@ def _borrows_local(pv, op, bb, l):
         if di < 0:
             continue
         dl, dbb, didx, payload = pv._defs[di]
-        if didx == "term" and callee_path_(payload) in ("core::ops::DerefMut::deref_mut", "core::ops::Deref::deref"):
+        if didx == "term" and callee_path_(payload) in ("core::ops::deref::DerefMut::deref_mut", "core::ops::deref::Deref::deref"):
             return _borrows_local(pv, payload["args"][0], dbb, l)
         if didx != "term" and payload["k"] == "ref" and payload["place"]["p"] and payload["place"]["p"][0][0] == "deref":
             return _borrows_local(pv, {"k": "copy", "place": {"l": payload["place"]["l"], "p": []}}, dbb, l)
